@@ -37,10 +37,10 @@ from ..realise import puritydocs as PD  # noqa: E402
 SPEC = os.path.join(SPECS, "purity", "MC_Purity.tla")
 TRACE_SPEC = os.path.join(SPECS, "purity", "PurityTrace.tla")
 ADDRESS_DEVS = ("InlineNameIsAddress", "TieBreakByAddress")
-DANGEROUS = ["EncodingNoCopy", "EncodingLazyCopy", "ColorSpaceNoCopy", "InitResourcesEarlyReturn", "ObjStmSiblingsCached", "ContentsArrayConsumed", "FormsInProgressByIdentity", "BuiltinEncodingAssigned", "DirectFontInheritsObjId", "UseCMapAlias", "UMapKeyCoarse", "SharedManager", "DecipherTwice",
+DANGEROUS = ["EncodingNoCopy", "EncodingLazyCopy", "ColorSpaceNoCopy", "InitResourcesEarlyReturn", "ObjStmSiblingsCached", "ContentsArrayConsumed", "FormsInProgressByIdentity", "ResolveMemoProcessWide", "BuiltinEncodingAssigned", "DirectFontInheritsObjId", "UseCMapAlias", "UMapKeyCoarse", "SharedManager", "DecipherTwice",
              "DescendantNoCopy", "InlineNameIsAddress", "TieBreakByAddress"]
 # the smallest pool / number of calls in which each dangerous alternative breaks Functional
-REFUTE_IN = {"EncodingNoCopy": ('{"dA", "dB"}', 2), "EncodingLazyCopy": ('{"dA", "dB"}', 2), "InitResourcesEarlyReturn": ('{"dB"}', 1), "ObjStmSiblingsCached": ('{"dA"}', 1), "ContentsArrayConsumed": ('{"dC"}', 1), "FormsInProgressByIdentity": ('{"dB"}', 1, "{FALSE}"), "BuiltinEncodingAssigned": ('{"dB", "dC"}', 2),
+REFUTE_IN = {"EncodingNoCopy": ('{"dA", "dB"}', 2), "EncodingLazyCopy": ('{"dA", "dB"}', 2), "InitResourcesEarlyReturn": ('{"dB"}', 1), "ObjStmSiblingsCached": ('{"dA"}', 1), "ContentsArrayConsumed": ('{"dC"}', 1), "FormsInProgressByIdentity": ('{"dB"}', 1, "{FALSE}"), "ResolveMemoProcessWide": ('{"dA", "dC"}', 2), "BuiltinEncodingAssigned": ('{"dB", "dC"}', 2),
              "DirectFontInheritsObjId": ('{"dA"}', 1), "ColorSpaceNoCopy": ('{"dA", "dC"}', 2), "UseCMapAlias": ('{"dA"}', 2),
              "UMapKeyCoarse": ('{"dA", "dB"}', 2), "SharedManager": ('{"dA", "dB"}', 2), "DecipherTwice": ('{"dC"}', 1),
              "DescendantNoCopy": ('{"dA"}', 1), "InlineNameIsAddress": ('{"dA"}', 1), "TieBreakByAddress": ('{"dB"}', 1)}
@@ -48,7 +48,7 @@ ACTIONS = ["Open", "Extract", "Next", "Close", "UseCMap", "ADocOpen", "APageStar
            "AFontMiss", "AObjStmParse", "AObjDirectParse", "AGetFontSpec", "AGetObjParsed", "ADecipherAllInPlace", "ACopyDescendantSpec", "AGetEncodingShared",
            "AGetEncodingCopyOnWrite", "ADifferencesAssign", "ADifferencesPop", "AParseToUnicode", "ACMapCacheFill", "ACMapCacheHit", "AUMapCacheFill",
            "AUMapCacheHit", "AResolveAllInPlace", "ABuiltinEncoding", "AFontCacheFill", "AExecuteContents", "ARender", "AUseCMapCopy", "AAddCode2Cid"]
-INVARIANTS = ["CacheKeySound", "CMapCacheSound", "DecipheredOnce", "ObjCacheNewest", "CachedObjectsAsParsed", "ClientOwnsItsTable"]
+INVARIANTS = ["CacheKeySound", "CMapCacheSound", "DecipheredOnce", "ObjCacheNewest", "ResolveMemoPerCall", "CachedObjectsAsParsed", "ClientOwnsItsTable"]
 PROPERTIES = ["SharedTablesImmutable", "CachesAppendOnly"]
 KINDS = OBS.KINDS
 # short TLC runs (refutations, coverage, trace validation) spend most of their CPU in JIT warm-up: C1 only
@@ -581,6 +581,25 @@ def mixed_font_dict_doc(order, in_form):
     return simple_doc([b"/Fm1 Do", b"/Fm1 Do"], fonts={}, xobjects={"Fm1": Ref(42)}, extra_objects=extra)[0]
 
 
+def truetype_cid_doc(word):
+    """Type0 -> CIDFontType2 (Adobe-Identity, Identity-H, embedded /FontFile2, NO /ToUnicode): the text comes from the cmap table
+    of the embedded TrueType program.  Every such document uses the SAME /BaseFont name and object numbers and shows glyphs
+    1 2; the cmap table says which characters those are (`word`)."""
+    from ..realise.fontpdf import truetype_with_cmap
+    from ..realise.pdfwriter import Ref, Stream, simple_doc
+    ttf = truetype_with_cmap({ord(ch): i + 1 for i, ch in enumerate(word)})
+    desc = {"Type": PD.Name("FontDescriptor"), "FontName": PD.Name("AAAAAA+VerifTT"), "Flags": 4, "FontBBox": [0, -200, 1000, 800],
+            "ItalicAngle": 0, "Ascent": 800, "Descent": -200, "CapHeight": 700, "StemV": 80, "FontFile2": Ref(42)}
+    cid = {"Type": PD.Name("Font"), "Subtype": PD.Name("CIDFontType2"), "BaseFont": PD.Name("AAAAAA+VerifTT"),
+           "CIDSystemInfo": {"Registry": b"Adobe", "Ordering": b"Identity", "Supplement": 0}, "FontDescriptor": Ref(40), "DW": 500,
+           "CIDToGIDMap": PD.Name("Identity")}
+    f = {"Type": PD.Name("Font"), "Subtype": PD.Name("Type0"), "BaseFont": PD.Name("AAAAAA+VerifTT"), "Encoding": PD.Name("Identity-H"),
+         "DescendantFonts": [Ref(41)]}
+    extra = {40: desc, 41: cid, 42: Stream({"Length1": len(ttf)}, ttf)}
+    codes = b"".join(b"%04x" % (i + 1) for i in range(len(word)))
+    return simple_doc([b"BT /F1 12 Tf 72 700 Td <" + codes + b"> Tj ET"], fonts={"F1": f}, extra_objects=extra)[0]
+
+
 MANY = "generated:many-names"
 
 
@@ -613,6 +632,9 @@ def generated_corpus(docs):
         out["generated:diff-same-then-pop:" + base] = differences_doc(base, [67, N("C"), 99, N("g88")])
         out["generated:diff-none:" + base] = differences_doc(base, [])
     out[MANY] = many_names_doc()
+    # same-named embedded TrueType CID fonts whose cmap tables differ
+    out["generated:ttf-Hi"] = truetype_cid_doc("Hi")
+    out["generated:ttf-No"] = truetype_cid_doc("No")
     for v in ("std-def", "array", "plain"):
         out["generated:t1-" + v] = type1_program_doc(v)
     for order in ("indirect-first", "direct-first"):
@@ -658,7 +680,7 @@ def plan_history(rng, corpus, per_doc):
     # the pool documents (shared indirect /Contents, /Resources, /Font, forms; object stream + update) always get a call
     # with caching on over all pages and one with caching off
     for label in corpus:
-        if label.startswith(("generated:dA", "generated:dB", "generated:dC", "generated:mix", "generated:t1")):
+        if label.startswith(("generated:dA", "generated:dB", "generated:dC", "generated:mix", "generated:t1", "generated:ttf")):
             calls.append((label, rng.choice(KINDS), True, None))
             calls.append((label, rng.choice(KINDS), False, None))
     rng.shuffle(calls)
